@@ -133,6 +133,17 @@ CLAIMS = {
          "the neutral twin; #![no_std] build; const-parameter probe (known finding).",
          COMMON_NOTE + "rustc's name resolution is the oracle for the compile half; the reference-position analysis (Names.lean: after `.`/`::`, attributes, binders) is a syntactic approximation validated by the hostile-context runs; one known finding (const parameter named like a generated local) is recorded rather than repaired.",
          "Lean 4 theorems (decide +kernel over regenerated template and binder-format tables; soundness lemmas) + hostile-naming-context compile-and-run correspondence"),
+ "C01": ("The generator-dependent part of `compiles`, clause by clause: eq_/cmp_/hash_/clone_body_well_scoped (for every definition, attribute "
+         "assignment and value the generated body evaluates without meeting an unbound binder, a wrong-arity pattern or a missing field - "
+         "corollaries of the C02-C07 correctness theorems), copy_impl_covers_fields_with_method (the Copy impl sharing the Clone header asks "
+         "every field type to be Copy also when a custom clone method removed the field from the Clone predicates - the repaired defect, with a "
+         "kernel-checked instance), together with Props.C11 (obligations covered by predicates) and Props.C19 (binders distinct, paths closed). "
+         "Tie: 1200 definitions from the ten behavioural generators + 1500 generic definitions (lifetimes, type/const parameters, real "
+         "where-clause bounds incl. associated types, raw identifiers, all repr forms, empty and single-variant enums, random trait sets, "
+         "ignore/rank/name/method/Default attributes) compiled as library crates against the real proc-macro: any error or non-harness "
+         "warning located in a definition is its failure; the generic pool is also expanded in-process (must be accepted; outcome model agrees).",
+         COMMON_NOTE + "PARTIAL by nature: rustc's type, borrow and lint checking of the generated items is observed through the compile runs, not modelled; the theorems cover well-scopedness, predicate coverage of the Copy companion, binder distinctness and path closedness only. Warnings whose lint rustc suppresses inside external-macro expansions cannot be observed.",
+         "Lean 4 theorems (well-scoped bodies, Copy-predicate coverage; with C11/C19) + compile correspondence against rustc over generated definitions"),
  "C11": ("Theorems auto_preds_shape / auto_preds_only_collected (automatic mode appends one `FieldTy: Trait` per collected type plus the "
          "supertraits on Self, nothing else), struct_body_delegates_exactly + delegated_types_and_operands (the collected types are exactly the "
          "fields on which the generated PartialEq body calls the trait's own method — two independently written parts linked), "
